@@ -163,7 +163,26 @@ def misuse_cases():
         bad(["hnew s0 %s 256 %s ctx" % (kind, P(6, 0, mx + 1))], "%s Context key length %d" % (kind, mx + 1))
         for fl in (0, 31, 33):
             bad(["hnew s0 %s 256" % kind, "fin_at s0 %d" % fl], "%s<256> finalize_at buffer %d" % (kind, fl))
+    # every keyed entry point of every BLAKE2 context type, with every over-long key length class (max+1 .. beyond the block size)
+    for fam, mx, B in (("b", 64, 128), ("s", 32, 64)):
+        kinds = [("b2%sdyn %d" % (fam, mx), mx), ("b2%sdyn 20" % fam, 20), ("b2%s 256" % fam, 32), ("b2%s 224" % fam, 28), ("b2%s 8" % fam, 1)]
+        if fam == "b":
+            kinds += [("b2b 512", 64), ("b2b 384", 48)]
+        for kind, o in kinds:
+            for kl in (mx + 1, mx + 2, B - 1, B, B + 1, 2 * B):
+                key = P(6, 0, kl)
+                bad(["hnew s0 %s %s" % (kind, key)], "%s new_keyed key length %d" % (kind, kl))
+                if "dyn" not in kind:
+                    bad(["hnew s0 %s %s ctx" % (kind, key)], "%s Context::new_keyed key length %d" % (kind, kl))
+                bad(["hnew s0 %s" % kind, "hreset_key s0 %s" % key], "%s reset_with_key length %d" % (kind, kl))
+                bad(["hnew s0 %s" % kind, "update_mut s0 h:61", "fin_reset_key s0 %s" % key], "%s finalize_reset_with_key length %d" % (kind, kl))
+                bad(["hnew s0 %s" % kind, "fin_reset_key_at s0 %s %d" % (key, o)], "%s finalize_reset_with_key_at length %d" % (kind, kl))
+                bad(["hnew s0 %s %s" % (kind, P(6, 0, 4)), "hreset_key s0 %s" % key], "keyed %s reset_with_key length %d" % (kind, kl))
     for name, mx in (("blake2b", 64), ("blake2s", 32)):
+        for kl in (mx + 1, 2 * mx, 2 * mx + 1):
+            bad(["mnew s0 %s %d %s" % (name, mx, P(6, 0, 4)), "mb2reset_key s0 %s" % P(6, 0, kl)], "legacy %s mac reset_with_key %d" % (name, kl))
+            bad(["dnew s0 %s %d" % (name, mx), "db2reset_key s0 %s" % P(6, 0, kl)], "legacy %s digest reset_with_key %d" % (name, kl))
+            bad(["%s_static %d h:61 %s" % ("b2b" if name == "blake2b" else "b2s", mx, P(6, 0, kl))], "%s static key length %d" % (name, kl))
         for o in (0, mx + 1):
             bad(["dnew s0 %s %d" % (name, o)], "legacy %s outlen %d" % (name, o))
             bad(["mnew s0 %s %d %s" % (name, o, P(6, 0, 4))], "legacy keyed %s outlen %d" % (name, o))
